@@ -66,6 +66,22 @@ def degree_sweep(ctx, PL, rng, tier):
                                                             "note": "observed in an ascending/descending sweep over all degrees in one process"})
 
 
+def invrect_sweep(ctx, PL, rng, tier):
+    """1/x-times-rect takes a degree as well (for its rect factor): every even degree 2..60 with the library's default
+    shape and a second one, Chebyshev mode, plus degrees up to 24 in monomial mode"""
+    for shape in ({"delta": 2, "kappa": 3, "epsilon": 0.1}, {"delta": 2, "kappa": 3, "epsilon": 0.01}, {"delta": 3, "kappa": 2, "epsilon": 0.05}):
+        for cb, dmax in ((True, 60), (False, 24)):
+            if not cb and shape["epsilon"] < 0.05:
+                continue
+            for d in range(2, dmax + 1, 2 if tier != "quick" or shape["epsilon"] == 0.1 else 4):
+                args = dict(shape, degree=d)
+                eb = bool(rng.random() < 0.5)
+                out = G.call(PL, "invert_rect", args, eb, False, cb)
+                ctx.count("degree-sweep:invert_rect")
+                ctx.case(["sweep", "invert_rect", args, eb, cb], True, {"generator": "invert_rect", "args": args, "ensure_bounded": eb, "chebyshev_basis": cb, "kind": "all-degrees sweep"})
+                predicate(ctx, "invert_rect", args, eb, False, cb, out, {"generator": "invert_rect", "args": args, "ensure_bounded": eb, "return_scale": False, "chebyshev_basis": cb})
+
+
 def run(tier, seed):
     ctx = core.Ctx(PROP, tier, seed, "proof", ["C14"])
     ctx.axioms = core.audit(ctx.modules)
@@ -75,6 +91,7 @@ def run(tier, seed):
     reps = 6 if tier == "quick" else 40
     seen_broken = set()
     degree_sweep(ctx, PL, rng, tier)
+    invrect_sweep(ctx, PL, rng, tier)
     for name in G.REG:
         fam, par, has_deg = G.REG[name][1], G.REG[name][2], G.REG[name][3]
         for cb in (True, False):
